@@ -283,7 +283,7 @@ def gen_spec(r, kind, rule=None, tier="quick"):
             spec["depth"] = r.randint(1, 5) if d <= 2 else r.randint(1, 3)
         if "tensor" in spec["type"]:
             spec["depth"] = r.randint(1, 2)
-        spec["aw"] = gl.rand_aw(r, d, spec["type"]) if r.random() < 0.25 else []
+        spec["aw"] = gl.rand_aw(r, d, spec["type"]) if (r.random() < 0.25 and d <= 2) else []
     return spec
 
 
@@ -479,6 +479,10 @@ def check_linear(ctx, cid, info, steps, script):
     for s in bad:
         t = s.cmd.split()
         if s.exc[0] in ("hang",) or s.exc[0].startswith("crash"):
+            if s.exc[0] == "hang" and len(t) > 1 and t[1] == "c":
+                # the canonical twin itself is too slow for the per-case budget: nothing about transforms is observed
+                ctx.count("skipped_canonical_grid_too_slow")
+                return False
             V("transform.no-return-or-crash", "%s -> %s" % (s.cmd[:80], s.exc))
             return False
     def twin_exc(cmdname, slot_c, slot_t, nth=0):
@@ -784,6 +788,9 @@ def check_conformal(ctx, cid, info, steps, script):
         return False
     for s in steps:
         if s.exc is not None and (s.exc[0] == "hang" or s.exc[0].startswith("crash")):
+            if s.exc[0] == "hang" and len(s.cmd.split()) > 1 and s.cmd.split()[1] == "c":
+                ctx.count("skipped_canonical_grid_too_slow")
+                return False
             V(K_ORDER if both else "conformal.no-return-or-crash", "%s -> %s" % (s.cmd[:80], s.exc))
             return False
     pc, pt = obs_of(steps, "dump c meta", "allpoints"), obs_of(steps, "dump t meta", "allpoints")
